@@ -20,6 +20,28 @@ def term(model, xl, fname, args, atoms=None):
     return f, outs[0].value
 
 
+def ce_term(model, xl, fname, args):
+    """term of a kernel that gathers `T[range(n), labels]`: the gather becomes the atom gather{<canonical T>}"""
+    ch, cm = xl.hooks()
+
+    def hook(pe, name, e, args_, kw, env, func, depth):
+        if name == 'numpy.reshape' and args_ and isinstance(args_[0], P):
+            return args_[0]
+        return ch(pe, name, e, args_, kw, env, func, depth)
+
+    def sub_hook(pe, e, base, idx):
+        if isinstance(base, P) and isinstance(idx, tuple) and len(idx) == 2 and not (idx and idx[0] == 'slice'):
+            lab = idx[1]
+            if isinstance(lab, P) and lab == A('y_true'):
+                return P.atom('gather{%s}' % xl.norm(base).canon())
+        return NotImplemented
+    f = model.func(K + fname) if isinstance(fname, str) else fname
+    outs = PE(model, call_hook=hook, compare_hook=cm, sub_hook=sub_hook, atoms_not_none=True).paths(f, args)
+    if len(outs) != 1 or outs[0].kind != 'return' or not isinstance(outs[0].value, P):
+        raise Incomplete('%s does not evaluate to one term: %s' % (f.name, [(o.kind, o.conds[-2:]) for o in outs][:3]))
+    return f, outs[0].value
+
+
 def definitions(model):
     """name -> (thunk returning (func, got term, wanted term, xl), text of the definition)"""
     a, x, y, ax = A('a'), A('y_pred'), A('y_true'), A('axis')
@@ -66,21 +88,11 @@ def definitions(model):
         return f, t, xl.opaque('maximum', P.const(0), a), xl
 
     def cross_entropy():
-        # NLL of log_softmax along axis 1: compared through the gathered log-probabilities
+        # -(log-probabilities gathered at the labels): the gather is an opaque marker around the term it reads
         xl = XL(scalars={'axis'})
-        ch, cm = xl.hooks()
-        f = model.func(K + 'cross_entropy_loss_forward')
-        calls = []
-
-        def hook(pe, name, e, args, kw, env, func, depth):
-            if name == K + 'nll_loss_forward':
-                calls.append(args)
-                return P.atom('NLL')
-            return ch(pe, name, e, args, kw, env, func, depth)
-        outs = PE(model, call_hook=hook, compare_hook=cm, atoms_not_none=True).paths(f, {'y_pred': a, 'y_true': y})
-        if len(outs) != 1 or len(calls) != 1 or not isinstance(calls[0][0], P):
-            raise Incomplete('cross_entropy_loss_forward is not NLL of one term')
-        return f, calls[0][0], a - xl.log(xl.sum(xl.exp(a))), xl
+        f, t = ce_term(model, xl, 'cross_entropy_loss_forward', {'y_pred': a, 'y_true': y})
+        want = -P.atom('gather{%s}' % xl.norm(a - xl.log(xl.sum(xl.exp(a)))).canon())
+        return f, t, want, xl
     return {
         'sigmoid': (sigmoid, '1 / (1 + exp(-a))'),
         'softmax': (softmax, 'exp(a) / sum_axis exp(a)'),
@@ -111,7 +123,7 @@ def check_defn(model, R, P_, names, why):
 
 def check_fused(model, R, P_):
     """C14: natively implemented fused kernels equal the documented compositions of the other kernels"""
-    R.rule(P_ + '.EXPLOG', 'natively implemented fused kernels equal the documented composition of the component kernels as terms under exp / log / axis-sum algebra', floor=2)
+    R.rule(P_ + '.EXPLOG', 'natively implemented fused kernels equal the documented composition of the component kernels as terms under exp / log / axis-sum algebra', floor=3)
     a, x, y, ax = A('a'), A('y_pred'), A('y_true'), A('axis')
     try:
         xl = XL(scalars={'axis'})
@@ -122,6 +134,15 @@ def check_fused(model, R, P_):
              'log_softmax must be the logarithm of the softmax kernel', f.loc)
     except (Unsupported, ZeroDivisionError, Incomplete) as u:
         R.incomplete_at(P_ + '.EXPLOG', K + 'log_softmax_forward', str(u))
+    try:
+        xl = XL(scalars={'axis'})
+        f, ce = ce_term(model, xl, 'cross_entropy_loss_forward', {'y_pred': a, 'y_true': y})
+        _, ls = term(model, xl, 'log_softmax_forward', {'a': a, 'axis': 1})
+        _, comp = ce_term(model, xl, 'nll_loss_forward', {'y_pred': ls, 'y_true': y})
+        R.ob(P_ + '.EXPLOG', f.qualname, 'cross_entropy(a, y) = %s ; nll(log_softmax(a, 1), y) = %s' % (xl.norm(ce).canon()[:90], xl.norm(comp).canon()[:90]), xl.equal(ce, comp),
+             'cross-entropy must be the NLL of log_softmax along dim 1', f.loc)
+    except (Unsupported, ZeroDivisionError, Incomplete) as u:
+        R.incomplete_at(P_ + '.EXPLOG', K + 'cross_entropy_loss_forward', str(u))
     try:
         xl = XL()
         f, bl = term(model, xl, 'bce_with_logits_loss_forward', {'y_pred': x, 'y_true': y})
